@@ -205,7 +205,10 @@ def r4_start_aware_rejection(ctx, cfg='A'):
         ctx.touch(f)
         t = peel(f.expr_operand(s.args[1], s.b, 'T'))
         # exempt: re-insertion of the frame that was just fetched (time comes out of the event set itself)
-        if t[0] == 'field' and peel(t[1])[0] == 'call' and peel(t[1])[1] == fes(cfg) + '::fetch_next':
+        from .dispatch import frame_component
+        fc_ = frame_component(P, t)
+        if (t[0] == 'field' and peel(t[1])[0] == 'call' and peel(t[1])[1] == fes(cfg) + '::fetch_next') or \
+                (fc_ is not None and fc_[0] == 'time' and fc_[1][0] == 'call' and fc_[1][1] == fes(cfg) + '::fetch_next'):
             ctx.ok('put-back of a fetched frame (time originates in the event set)', s.where(), show(t))
             continue
         # route-level guard: dominated by `time >= now()` where now() reads the clock
